@@ -146,7 +146,13 @@ func main() {
 			if rel != "." && (strings.HasPrefix(base, ".") || base == "testdata" || base == "verifx" || base == "docs" || base == "contrib" || base == "node_modules") {
 				return filepath.SkipDir
 			}
-			if rel == "pkg/logger" || rel == "tools" || strings.HasPrefix(rel, "tools/") {
+			if rel == "tools" || strings.HasPrefix(rel, "tools/") {
+				return nil
+			}
+			if rel == "pkg/logger" {
+				// not instrumented, but its mutex must be the scheduler's: it formats its arguments
+				// (String methods of instrumented types) while holding it
+				swaps[rel] = map[string]string{"sync": "vsync", "sync/atomic": "vatomic"}
 				return nil
 			}
 			if g, _ := filepath.Glob(filepath.Join(p, "*.go")); len(g) == 0 {
